@@ -56,6 +56,30 @@ func (c *checkCtx) confirm(v Violation) (bool, string) {
 		}
 		return c.tryPlanN(&p, v.Key, 10)
 	}
+	var cross struct {
+		Cross bool `json:"cross_process"`
+	}
+	json.Unmarshal(v.Replay, &cross)
+	if cross.Cross {
+		// re-execute in several fresh processes; reproduced if two of them disagree
+		tmp := filepath.Join(c.S.Dir, fmt.Sprintf("replay-%d.json", time.Now().UnixNano()))
+		if err := os.WriteFile(tmp, v.Replay, 0o644); err != nil {
+			return false, err.Error()
+		}
+		defer os.Remove(tmp)
+		seen := map[string]int{}
+		for i := 0; i < 8; i++ {
+			w := runWorker(c.S.Plain, []string{replayCmd[v.Engine], "-file", tmp}, []string{"GOMAXPROCS=1"}, 5*time.Minute)
+			for _, d := range w.Docs {
+				if docType(d) == "replay" {
+					var cl string
+					json.Unmarshal(d["class"], &cl)
+					seen[cl]++
+				}
+			}
+		}
+		return len(seen) > 1, fmt.Sprintf("outcome classes over 8 fresh processes: %v", seen)
+	}
 	tmp := filepath.Join(c.S.Dir, fmt.Sprintf("replay-%d.json", time.Now().UnixNano()))
 	if err := os.WriteFile(tmp, v.Replay, 0o644); err != nil {
 		return false, err.Error()
